@@ -341,6 +341,7 @@ func runKeys(rng *rand.Rand, n int, out *Out, args []string) {
 		if err := kf.Write(); err != nil {
 			panic(err)
 		}
+		keyLifeCycle(rng, out, entropy, kf.Path, pw, size)
 		rf, err := wallet.ReadKeyFile(kf.Path)
 		ok := err == nil
 		var dks *wallet.KeyStore
@@ -483,4 +484,93 @@ func safeDecrypt(cf *wallet.KeyFile, pw string) (err error) {
 	}()
 	_, err = cf.Decrypt(pw)
 	return err
+}
+
+// keyLifeCycle: a key pair handed out by a key store keeps working whatever happens to the store afterwards (the
+// pillar keeps its producing key pair; the store is locked, zeroed, unlocked again, the manager stopped): same
+// private / public key and address as when it was derived, its signatures verify under its public key, and a later
+// derivation of the same index is an equal but independent pair
+func keyLifeCycle(rng *rand.Rand, out *Out, entropy []byte, path, pw string, size int) {
+	type kept struct {
+		kp            *wallet.KeyPair
+		priv, pub     []byte
+		addr          types.Address
+		idx           uint32
+		after, origin string
+	}
+	var pairs []kept
+	keep := func(ks *wallet.KeyStore, origin string) {
+		for _, idx := range []uint32{0, uint32(1 + rng.Intn(5))} {
+			if _, kp, err := ks.DeriveForIndexPath(idx); err == nil && kp != nil {
+				pairs = append(pairs, kept{kp: kp, priv: append([]byte{}, kp.Private...), pub: append([]byte{}, kp.Public...), addr: kp.Address, idx: idx, origin: origin})
+			}
+		}
+	}
+	check := func(after string) {
+		for _, k := range pairs {
+			msg := make([]byte, 1+rng.Intn(64))
+			rng.Read(msg)
+			okSig := false
+			func() {
+				defer func() { recover() }()
+				sig := k.kp.Sign(msg)
+				okSig, _ = wallet.VerifySignature(k.pub, msg, sig)
+			}()
+			same := bytes.Equal(k.kp.Private, k.priv) && bytes.Equal(k.kp.Public, k.pub) && k.kp.Address == k.addr
+			out.Oracle(same && okSig, "derived-keypair-stable-after-keystore-operations",
+				M{"entropy_size": size, "index": U64(uint64(k.idx)), "obtained_from": k.origin, "after": after, "fields_unchanged": same, "signature_verifies": okSig})
+		}
+	}
+	// directly on key stores
+	ks, err := wallet.VerifKeyStoreFromEntropy(append([]byte{}, entropy...))
+	if err != nil {
+		return
+	}
+	keep(ks, "keystore")
+	_, again, _ := ks.DeriveForIndexPath(0)
+	check("second derivation of index 0")
+	if again != nil && len(again.Private) > 0 {
+		// equal but independent: scribbling over the second pair must not reach the first
+		saved := append([]byte{}, again.Private...)
+		for j := range again.Private {
+			again.Private[j] = 0
+		}
+		check("second pair of index 0 overwritten by its holder")
+		copy(again.Private, saved)
+	}
+	ks.FindAddress(pairs[len(pairs)-1].addr)
+	check("FindAddress")
+	ks.Encrypt(pw)
+	check("Encrypt")
+	ks.Zero()
+	check("KeyStore.Zero")
+	// through the manager: unlock, derive, lock / unlock again / stop
+	m := wallet.New(&wallet.Config{WalletDir: filepath.Dir(path)})
+	if m.Start() != nil {
+		return
+	}
+	if err := m.Unlock(path, pw); err != nil {
+		out.Oracle(false, "manager-unlock-failed", M{"err": err.Error()})
+		return
+	}
+	mks, err := m.GetKeyStore(path)
+	if err != nil || mks == nil {
+		out.Oracle(false, "manager-unlock-failed", M{"err": fmt.Sprint(err)})
+		return
+	}
+	keep(mks, "manager")
+	check("Manager.Unlock")
+	m.Lock(path)
+	check("Manager.Lock")
+	if m.Unlock(path, pw) == nil {
+		if mks2, err := m.GetKeyStore(path); err == nil && mks2 != nil {
+			_, kp2, _ := mks2.DeriveForIndexPath(0)
+			out.Oracle(kp2 != nil && bytes.Equal(kp2.Private, pairs[0].priv), "derivation-not-deterministic", M{"size": size, "after": "lock and unlock"})
+			keep(mks2, "manager-after-relock")
+		}
+	}
+	check("second Manager.Unlock")
+	m.Stop()
+	check("Manager.Stop")
+	out.Count("keys:life-cycle")
 }
